@@ -395,7 +395,22 @@ async fn run_trace(id: &str, cfg_toml: &str, events: &[Vec<String>], out: &mut i
                         }
                         start = *o;
                     }
-                    socket_barrier(cid, c, &mut so, &mut seq).await;
+                    if bytes.last() == Some(&b'\n') {
+                        socket_barrier(cid, c, &mut so, &mut seq).await;
+                    } else {
+                        // an unfinished line is pending: a barrier command would be glued to it.
+                        // give the server time to handle the complete lines, then take what is there
+                        tokio::time::sleep(Duration::from_millis(40)).await;
+                        if !c.registered {
+                            loop {
+                                match read_line(c, Duration::from_millis(15)).await {
+                                    Got::Line(l) => so.push(cid, l),
+                                    Got::Eof => { so.eof.push(cid); break; }
+                                    Got::Timeout => break,
+                                }
+                            }
+                        }
+                    }
                 }
             }
             "X" => {
